@@ -21,7 +21,7 @@ FAMS = gen.ALL_FAMILIES + ("exp_wall", "badly_scaled", "rosenbrock", "oscillatin
 
 def floors(tier):
     return {"runs": 800, "sequence_points": 4000, "line_searches": 3000, "line_searches_without_convergence": 300,
-            "runs_budget_inside_search": 50, "restart_runs": 60, "runs_with_user_step_cap": 100, "runs_with_free_optimum_grazing_a_bound": 60, "short_runs_with_capped_first_step": 200, "__nontrivial__": 200}
+            "runs_budget_inside_search": 50, "restart_runs": 60, "runs_with_user_step_cap": 100, "runs_with_free_optimum_grazing_a_bound": 60, "short_runs_with_capped_first_step": 200, "runs_from_a_low_precision_start": 60, "restart_runs_with_scaler_and_target": 60, "__nontrivial__": 200}
 
 
 def cases(tier, seed):
@@ -44,6 +44,12 @@ def cases(tier, seed):
         if i % 4 == 1:
             cfg["max_steplength"] = float(gen.pick(rng, [0.05, 0.1, 0.2, 0.5, 1.0, 2.0]))  # the user's cap on the step length
         yield {"problem": ps, "cfg": cfg}
+    # a start vector in single / half precision, the run pushed to convergence (ftol = 0): the iterates themselves are double precision
+    for i in range(200 if tier == "quick" else 6000):
+        ps = gen.rand_spec(rng, ("qp", "qp_quartic", "rosenbrock", "badly_scaled", "styblinski_tang"), nmax=6, boxes=("none", "mixed", "boxed", "lower"))
+        yield {"problem": ps, "low_precision_start": True,
+               "cfg": {"jac": "callable", "maxcor": int(rng.integers(2, 11)), "maxls": 20, "maxiter": 80, "maxfun": 15000, "ftol": 0.0, "gtol": 1e-12,
+                       "cb": "never", "x0_dtype": str(gen.pick(rng, ["float32", "float32", "float16"]))}}
     # optimum grazing a bound, converged to the last digit
     for i in range(200 if tier == "quick" else 6000):
         yield {"problem": {"n": int(rng.integers(1, 7)), "seed": int(rng.integers(0, 2**31 - 1)), "cond": float(np.exp(rng.uniform(0, np.log(1e2))))},
@@ -67,7 +73,7 @@ def cases(tier, seed):
         if scen == "resume_from_kept_callback_state":
             cfg["maxiter"] = int(rng.integers(4, 10))
         yield {"problem": ps, "cfg": cfg, "restart": {"scenario": scen, "s": float(np.exp(rng.uniform(np.log(1e-2), np.log(1e2)))),
-                                                     "extra": int(rng.integers(1, 5)), "keep": int(rng.integers(0, 3))}}
+                                                     "extra": int(rng.integers(1, 5)), "keep": int(rng.integers(0, 3)), "with_target": bool(i % 2 == 1)}}
 
 
 def run_resume(spec, out):
@@ -115,7 +121,11 @@ def run_restart(spec, out):
     if a.exc is not None:
         out.count("runs_raised")
         return
-    b = probes.run_min(P, dict(cfg, maxiter=int(a.result.nit) + rs["extra"], scaler=rs["s"]), checkpoint=a.result, x0=np.array(a.result.x, dtype=float, copy=True))
+    c2 = dict(cfg, maxiter=int(a.result.nit) + rs["extra"], scaler=rs["s"])
+    if rs.get("with_target"):
+        c2["ftarget"] = -1e300  # an (unreachable) target value given together with the scaler on the restart leg
+        out.count("restart_runs_with_scaler_and_target")
+    b = probes.run_min(P, c2, checkpoint=a.result, x0=np.array(a.result.x, dtype=float, copy=True))
     if b.exc is not None:
         out.count("runs_raised")
         return
@@ -148,6 +158,8 @@ def run(spec):
     cfg = dict(spec["cfg"])
     if spec.get("first_step_capped"):
         out.count("short_runs_with_capped_first_step")
+    if spec.get("low_precision_start"):
+        out.count("runs_from_a_low_precision_start")
     if P.spec["family"] == "exp_wall":
         # start on the steep side of the wall, as in the repository's abnormal-termination test
         P.x0 = np.clip(P.x0 - 3.0, P.lb, P.ub)
@@ -184,6 +196,8 @@ def run(spec):
     if tr.exc is not None:
         out.count("runs_raised")
         out.count("raised:" + type(tr.exc).__name__)
+    if spec.get("low_precision_start") and tr.evals:
+        P.x0 = np.array(np.real(tr.evals[0][1]), dtype=float)  # the start the run actually used (the low-precision vector, in double precision)
     vals = e2e.mon_monotone(out, P, tr, tags)
     out.count("line_searches", st["n"])
     out.count("line_searches_without_convergence", st["noconv"])
